@@ -416,7 +416,7 @@ theorem aligned_run (c : Cfg α) (inputs : List (X × Oracle α)) :
     component by component, the histogram of the reference projections and the histogram of
     the current (winsorised) test projections built with the SAME `bins`, `lower[i]`,
     `upper[i]` — hence (`edges` being a function of these three) on the same bin edges; the
-    score is the maximum of `1 - Σ min(p, q)` over the components. -/
+    score is the maximum of `max(1 - Σ min(p, q), 0)` over the components. -/
 theorem same_edges (c : Cfg α) (hm : c.metric = .intersection) (inputs : List (X × Oracle α))
     (tp : List (List α)) (o : Oracle α) :
     let s : State X α := run c inputs
@@ -443,6 +443,52 @@ theorem supports_frozen_while_sliding (c : Cfg α) (s : State X α) (x : X) (o :
     (step c s x o).refProj = s.refProj ∧ (step c s x o).densRef = s.densRef ∧
     (step c s x o).numPcs = s.numPcs := by
   grind [step, slide]
+
+
+/-! ### the clamp of the intersection divergence (every carrier) -/
+
+/-- NEVER NEGATIVE, law-free: `max(1 - intersection, 0.0)` is never `<` zero in the sense of the
+    carrier's own `<`; the only fact used about the carrier is that zero is not `<` itself
+    (true of IEEE doubles).  A NaN raw value is returned unchanged, and `NaN < 0` is false. -/
+theorem interDiv_not_neg (hz : ¬ ((zero : α) < zero)) (p q : List α) : ¬ (interDiv p q < zero) := by
+  unfold interDiv pyMax
+  split
+  · exact hz
+  · assumption
+
+theorem foldl_pyMax_mem (t : List α) (a : α) : t.foldl pyMax a = a ∨ t.foldl pyMax a ∈ t := by
+  induction t generalizing a with
+  | nil => exact Or.inl rfl
+  | cons x u ih =>
+    simp only [List.foldl_cons, List.mem_cons]
+    rcases ih (pyMax a x) with h | h
+    · rw [h]; unfold pyMax; split
+      · exact Or.inr (Or.inl rfl)
+      · exact Or.inl rfl
+    · exact Or.inr (Or.inr h)
+
+theorem maxL_not_neg (hz : ¬ ((zero : α) < zero)) (l : List α) (h : ∀ v ∈ l, ¬ (v < zero)) :
+    ¬ (maxL l < zero) := by
+  cases l with
+  | nil => exact hz
+  | cons a t =>
+    simp only [maxL]
+    rcases foldl_pyMax_mem t a with e | e
+    · rw [e]; exact h a (by simp)
+    · exact h _ (List.mem_cons_of_mem _ e)
+
+/-- THE SCORE FED TO PAGE-HINKLEY IS NEVER NEGATIVE (intersection metric, every carrier, every
+    state and oracle): `¬ (score < 0)` — so the monitor's running mean cannot be dragged below
+    zero by a rounding residue of `1 - Σ min(p, q)`. -/
+theorem score_not_neg (hz : ¬ ((zero : α) < zero)) (c : Cfg α) (hm : c.metric = .intersection)
+    (s : State X α) (tp : List (List α)) (o : Oracle α) : ¬ (score c s tp o < zero) := by
+  simp only [score, hm]
+  apply maxL_not_neg hz
+  intro v hv
+  rw [List.mem_iff_getElem] at hv
+  obtain ⟨i, hi, rfl⟩ := hv
+  simp only [List.getElem_zipWith]
+  exact interDiv_not_neg hz _ _
 
 
 /-! ### non-vacuity: a concrete history with a drift (carrier `Int`, metric "kl") -/
@@ -517,7 +563,20 @@ theorem zipWith_pyMin_self (p : List K) : List.zipWith pyMin p p = p := by
 
 /-- INTERSECTION OF IDENTICAL HISTOGRAMS = 0: for any vector summing to one -/
 theorem intersection_self (p : List K) (hp : sumL p = 1) : interDiv p p = 0 := by
-  rw [interDiv, zipWith_pyMin_self, hp, one_eq, sub_self]
+  rw [interDiv, rawInterDiv, zipWith_pyMin_self, hp, one_eq, sub_self, zero_eq]
+  simp [pyMax]
+
+/-- over an ordered field the clamp `max(·, 0.0)` is the identity on non-negative values … -/
+theorem interDiv_eq_raw (p q : List K) (h : 0 ≤ rawInterDiv p q) : interDiv p q = rawInterDiv p q := by
+  simp [interDiv, pyMax, zero_eq, not_lt.mpr h]
+
+/-- … and the clamped divergence is never negative, whatever the vectors -/
+theorem interDiv_nonneg (p q : List K) : 0 ≤ interDiv p q := by
+  unfold interDiv pyMax
+  rw [zero_eq]
+  split
+  · exact le_refl _
+  · exact not_lt.mp ‹_›
 
 theorem sum_zipWith_pyMin_le (p q : List K) (hp : ∀ x ∈ p, 0 ≤ x) :
     (List.zipWith pyMin p q).sum ≤ p.sum := by
@@ -551,8 +610,12 @@ theorem intersection_range (p q : List K) (hp : ∀ x ∈ p, 0 ≤ x) (hq : ∀ 
   rw [sumL_eq] at hs
   have h1 := sum_zipWith_pyMin_le p q hp
   have h2 := sum_zipWith_pyMin_nonneg p q hp hq
-  simp only [interDiv, sumL_eq, one_eq]
-  constructor <;> linarith
+  have hraw : 0 ≤ rawInterDiv p q ∧ rawInterDiv p q ≤ 1 := by
+    simp only [rawInterDiv, sumL_eq, one_eq]
+    constructor <;> linarith
+  -- the clamp is the identity on [0, 1]
+  rw [interDiv_eq_raw p q hraw.1]
+  exact hraw
 
 /-- the intersection divergence is symmetric up to the tie rule of `min`, which returns equal values -/
 theorem pyMin_comm (a b : K) : pyMin a b = pyMin b a := by
@@ -1132,7 +1195,11 @@ theorem step_score_in_unit_interval {X : Type}
 example : interDiv ([1/2, 1/2] : List ℚ) [1/2, 1/2] = 0 :=
   intersection_self _ (by norm_num [sumL, zero])
 
-example : interDiv ([1, 0] : List ℚ) [0, 1] = 1 := by norm_num [interDiv, sumL, zero, one, pyMin]
+example : interDiv ([1, 0] : List ℚ) [0, 1] = 1 := by norm_num [interDiv, rawInterDiv, sumL, zero, one, pyMin, pyMax]
+-- the clamp at work: vectors that are not distributions (Σ min = 3/2 > 1) give 0, not -1/2
+example : rawInterDiv ([1, 1/2] : List ℚ) [1, 1/2] = -1/2 ∧ interDiv ([1, 1/2] : List ℚ) [1, 1/2] = 0 := by
+  norm_num [interDiv, rawInterDiv, sumL, zero, one, pyMin, pyMax]
+example : ¬ ((zero : ℚ) < zero) := by simp [zero]
 
 example : (0 : ℚ) ≤ interDiv ([1/4, 3/4] : List ℚ) [1/2, 1/2] ∧ interDiv ([1/4, 3/4] : List ℚ) [1/2, 1/2] ≤ 1 :=
   intersection_range _ _ (by norm_num) (by norm_num) (by norm_num [sumL, zero])
